@@ -14,20 +14,21 @@ import (
 
 // Knobs are the per-run randomised configuration values.
 type Knobs struct {
-	MapSeed    uint64         `json:"map_seed"`
-	UUIDSeed   uint64         `json:"uuid_seed"`
-	SchedSeed  uint64         `json:"sched_seed"`
-	Bias       int            `json:"bias,omitempty"`
-	GoMaxProcs int            `json:"gomaxprocs,omitempty"`
-	IIDStart   uint32         `json:"iid_start,omitempty"`
-	MutIDStart uint64         `json:"mutid_start,omitempty"`
-	RWMode     string         `json:"rwmode,omitempty"`
-	AdminToken string         `json:"admintoken,omitempty"`
-	Caches     map[string]int `json:"caches,omitempty"`
-	AllowSplit bool           `json:"allow_split,omitempty"`
-	Second     bool           `json:"second_store,omitempty"`
-	MutLogJSON bool           `json:"mutlog_json,omitempty"`
-	ShutDelay  int            `json:"shutdown_delay,omitempty"`
+	MapSeed    uint64            `json:"map_seed"`
+	UUIDSeed   uint64            `json:"uuid_seed"`
+	SchedSeed  uint64            `json:"sched_seed"`
+	Bias       int               `json:"bias,omitempty"`
+	GoMaxProcs int               `json:"gomaxprocs,omitempty"`
+	IIDStart   uint32            `json:"iid_start,omitempty"`
+	MutIDStart uint64            `json:"mutid_start,omitempty"`
+	RWMode     string            `json:"rwmode,omitempty"`
+	AdminToken string            `json:"admintoken,omitempty"`
+	Caches     map[string]int    `json:"caches,omitempty"`
+	AllowSplit bool              `json:"allow_split,omitempty"`
+	Second     bool              `json:"second_store,omitempty"`
+	Backends   map[string]string `json:"backends,omitempty"`
+	MutLogJSON bool              `json:"mutlog_json,omitempty"`
+	ShutDelay  int               `json:"shutdown_delay,omitempty"`
 }
 
 // SchedRec is the recorded schedule of one command (for replay).
@@ -40,13 +41,13 @@ type RunStats struct {
 	Lifetimes   int            `json:"lifetimes"`
 	Commands    int            `json:"commands"`
 	Requests    int            `json:"requests"`
-	Decisions   int            `json:"decisions"`     // scheduling decisions with >= 2 parked goroutines
-	MaxWidth    int            `json:"max_width"`     // largest parked set at a decision
-	Writes      int            `json:"writes"`        // mutating store/log calls
-	SimMS       int64          `json:"sim_ms"`        // fake milliseconds covered
-	Faults      map[string]int `json:"faults"`        // fault kinds that actually fired
-	Probes      map[string]int `json:"probes"`        // reach probes
-	SchedHash   uint64         `json:"sched_hash"`    // hash of the decision sequence at width >= 2
+	Decisions   int            `json:"decisions"`  // scheduling decisions with >= 2 parked goroutines
+	MaxWidth    int            `json:"max_width"`  // largest parked set at a decision
+	Writes      int            `json:"writes"`     // mutating store/log calls
+	SimMS       int64          `json:"sim_ms"`     // fake milliseconds covered
+	Faults      map[string]int `json:"faults"`     // fault kinds that actually fired
+	Probes      map[string]int `json:"probes"`     // reach probes
+	SchedHash   uint64         `json:"sched_hash"` // hash of the decision sequence at width >= 2
 	Panic500    []string       `json:"panic500,omitempty"`
 	ChildDeaths []string       `json:"child_deaths,omitempty"`
 }
@@ -60,24 +61,24 @@ func (s *RunStats) Probe(name string) { s.Probes[name]++ }
 // World is the simulated deployment of one run: a durable directory and a
 // sequence of server lifetimes (child processes) on it.
 type World struct {
-	Dir   string
-	Knobs Knobs
-	Stats *RunStats
+	Dir    string
+	Knobs  Knobs
+	Stats  *RunStats
 	Detail int // event detail requested from the child
 
-	child    *Child
-	lifeIdx  int
-	cmdIdx   int
-	Replay   []SchedRec // if non-nil, schedules are taken from here
-	Recorded []SchedRec
-	EventLog []string // concatenated child events (when Detail > 0)
-	lastNow  int64
-	Faults   *proto.FaultPlan // fault plan for the next lifetime's boot
-	StderrKeep []string
+	child          *Child
+	lifeIdx        int
+	cmdIdx         int
+	Replay         []SchedRec // if non-nil, schedules are taken from here
+	Recorded       []SchedRec
+	EventLog       []string // concatenated child events (when Detail > 0)
+	lastNow        int64
+	Faults         *proto.FaultPlan // fault plan for the next lifetime's boot
+	StderrKeep     []string
 	lastEndCrashed bool
 	crashLabel     string
-	CurStep    int   // set by executors: index of the scenario step being executed
-	StepOfCmd  []int // step index of every command issued
+	CurStep        int   // set by executors: index of the scenario step being executed
+	StepOfCmd      []int // step index of every command issued
 }
 
 var worldCounter int
@@ -188,6 +189,7 @@ func (w *World) Start() (*proto.Result, error) {
 		AllowSplit:      w.Knobs.AllowSplit,
 		Caches:          w.Knobs.Caches,
 		SecondStore:     w.Knobs.Second,
+		Backends:        w.Knobs.Backends,
 		MutLogJSON:      w.Knobs.MutLogJSON,
 		Faults:          w.Faults,
 		Sched:           *w.nextSched(),
@@ -370,8 +372,10 @@ func (w *World) SeqFast(reqs []proto.Req) ([]proto.Resp, error) {
 	return res.Resps, nil
 }
 
-func GET(url string) proto.Req  { return proto.Req{Client: "c0", Kind: "http", Method: "GET", URL: url} }
-func HEAD(url string) proto.Req { return proto.Req{Client: "c0", Kind: "http", Method: "HEAD", URL: url} }
+func GET(url string) proto.Req { return proto.Req{Client: "c0", Kind: "http", Method: "GET", URL: url} }
+func HEAD(url string) proto.Req {
+	return proto.Req{Client: "c0", Kind: "http", Method: "HEAD", URL: url}
+}
 func POST(url string, body []byte) proto.Req {
 	return proto.Req{Client: "c0", Kind: "http", Method: "POST", URL: url, Body: body}
 }
